@@ -105,7 +105,7 @@ def fwhm_list(A3, shape, thorough):
     col = np.sqrt((np.asarray(A3, float) ** 2).sum(0))
     vs = float(col.min())
     fov = float((col * np.asarray(shape)).max())
-    fs = [0.5 * vs, 1.0 * vs, 2.0 * vs, 3.5 * vs, 0.75 * fov, 3.0 * fov]
+    fs = [0.25 * vs, 0.5 * vs, 1.0 * vs, 2.0 * vs, 3.5 * vs, 0.75 * fov, 3.0 * fov]      # 0.25 voxel: the kernel is one voxel
     if thorough:
         fs += [1.25 * vs, 5.0 * vs, 1.5 * fov]
     out = []
@@ -234,6 +234,86 @@ def check_centred(ck, c, x, out, full, tag):
     return True
 
 
+def kernel_class(c):
+    if all(k == 1 for k in c.k):
+        return "single-voxel-kernel"
+    if any(c.k[i] == c.shape[i] and c.shape[i] > 1 for i in range(3)):
+        return "kernel-cut-by-grid"
+    return "kernel-inside-grid"
+
+
+def options_on_case(ck, rng, c, x, A3, t, shape, fwhm, base):
+    """scale / location (constructor and attributes changed afterwards), clean and is_fft on EVERY case of the
+    geometry loop, i.e. on every kernel-size class (one voxel, inside the grid, cut by the grid)"""
+    if base is None:
+        return
+    out0, full = base
+    kc = kernel_class(c)
+    sc = float(rng.choice([2.0, -0.5, 3.0, 1.0, 0.25]))
+    lo = float(rng.choice([0.0, 1.5, -4.0])) if sc != 1.0 else float(rng.choice([1.5, -4.0]))
+    want = sc * out0 + lo
+    rep = replay_of(c, x=x.tolist(), scale=sc, location=lo, kernel_class=kc)
+
+    def judge(got, how):
+        if isinstance(got, Exception):
+            ck.fail("scale/raises-or-wrong-window", "%s raised %s: %s (%s)" % (how, type(got).__name__, got, kc), dict(rep, how=how))
+        elif got.shape != want.shape:
+            ck.fail("scale/raises-or-wrong-window", "%s: output shape %s, expected %s (%s)" % (how, got.shape, want.shape, kc), dict(rep, how=how))
+        elif not np.allclose(got, want, rtol=0, atol=1e-9 * max(1.0, float(np.abs(want).max()))):
+            ck.fail("scale-location/not-applied/%s" % kc, "%s: output != scale * smooth(x) + location, scale %r location %r, kernel shape %s: max|diff| %.3g"
+                    % (how, sc, lo, c.k, float(np.abs(got - want).max())), dict(rep, how=how))
+
+    ck.count(("opt", shape, fwhm, sc, lo), bucket="options/%s" % kc)
+    try:
+        f2, _ = mk(aff4(A3, t), shape, fwhm, scale=sc, location=lo)
+        judge(smooth(f2, c.cm, x).get_fdata(), "LinearFilter(scale, location).smooth")
+        # the same filter used again on another image, then with its public attributes changed back
+        y = np.roll(x, 1, axis=0) + 1.0
+        got = smooth(f2, c.cm, y).get_fdata()
+        wy = sc * (window(conv_full(y, c.K) / c.S, c.ck, c.shape)) + lo
+        if got.shape != wy.shape or not np.allclose(got, wy, rtol=0, atol=1e-9 * max(1.0, float(np.abs(wy).max()))):
+            ck.fail("scale-location/not-applied/%s" % kc, "second image through the same scaled filter is wrong (%s)" % kc, dict(rep, how="second image"))
+    except Exception as e:  # noqa
+        judge(e, "LinearFilter(scale, location).smooth")
+    try:
+        f3, _ = mk(aff4(A3, t), shape, fwhm)
+        f3.scale, f3.location = sc, lo
+        judge(smooth(f3, c.cm, x).get_fdata(), "scale/location attributes set after construction")
+        f3.scale, f3.location = 1.0, 0.0
+        back = smooth(f3, c.cm, x).get_fdata()
+        if not np.allclose(back, out0, rtol=0, atol=1e-9 * max(1.0, float(np.abs(out0).max()))):
+            ck.fail("scale-location/not-applied/%s" % kc, "attributes reset to scale 1, location 0: output differs from the plain smooth", dict(rep, how="reset"))
+    except Exception as e:  # noqa
+        judge(e, "scale/location attributes set after construction")
+    # clean=True: NaN / inf are replaced as by np.nan_to_num before smoothing
+    if x.size >= 2:
+        xn = x.copy()
+        flat = xn.reshape(-1)
+        flat[0] = np.nan
+        flat[-1] = np.nan
+        try:
+            got = c.f.smooth(_img(xn, c.cm), clean=True).get_fdata()
+            ref = smooth(c.f, c.cm, np.nan_to_num(xn)).get_fdata()
+            if got.shape != ref.shape or not np.allclose(got, ref, rtol=1e-9, atol=1e-9):
+                ck.fail("options/clean/%s" % kc, "smooth(clean=True) != smooth(nan_to_num(x)) (%s)" % kc, dict(rep, how="clean"))
+        except Exception as e:  # noqa
+            ck.fail("options/clean/%s" % kc, "smooth(clean=True) raised %s: %s" % (type(e).__name__, e), dict(rep, how="clean"))
+    # is_fft=True: data already transformed by the filter's own _presmooth
+    try:
+        pre = type("_Pre", (), {"ndim": 3, "shape": tuple(shape),
+                                "get_fdata": lambda self_inner: c.f._presmooth(np.array(x, dtype=float))})()
+        got = c.f.smooth(pre, is_fft=True).get_fdata()
+        if got.shape != out0.shape or not np.allclose(got, out0, rtol=0, atol=1e-9 * max(1.0, float(np.abs(out0).max()))):
+            ck.fail("options/is_fft/%s" % kc, "smooth(presmoothed data, is_fft=True) != smooth(x) (%s)" % kc, dict(rep, how="is_fft"))
+    except Exception as e:  # noqa
+        ck.fail("options/is_fft/%s" % kc, "smooth(is_fft=True) raised %s: %s" % (type(e).__name__, e), dict(rep, how="is_fft"))
+
+
+def _img(x, cm):
+    from nipy.core.api import Image
+    return Image(np.array(x, dtype=float), cm)
+
+
 # ------------------------------------------------------------------ sections
 def gen_shapes(ck):
     rng = ck.rng("shapes")
@@ -295,6 +375,8 @@ def geometry_and_values(ck):
                 # --- values: random integer image, vs direct convolution (model index formula)
                 x = rng.integers(-8, 9, shape).astype(float)
                 r = check_values(ck, c, x, "random image")
+                if ck.thorough() or ncase % 3 == 0 or all(k == 1 for k in c.k):     # quick: a third of the cases + every one-voxel kernel
+                    options_on_case(ck, rng, c, x, A3, t, shape, fwhm, r)
                 if r is not None:
                     out, full = r
                     check_centred(ck, c, x, out, full, "random image")
@@ -518,6 +600,139 @@ def per_axis_width(ck):
                         % (kind, np.asarray(saved).tolist(), np.asarray(obj).tolist()), dict(rep, fwhm_object_after=np.asarray(obj).tolist()))
 
 
+def exact_det(M):
+    """determinant over Fractions (cofactor expansion), independent of NumPy and of the Coq model"""
+    from fractions import Fraction
+    M = [[Fraction(*float(v).as_integer_ratio()) for v in row] for row in M]
+    if len(M) == 1:
+        return M[0][0]
+    tot = Fraction(0)
+    for j, a in enumerate(M[0]):
+        if a != 0:
+            minor = [row[:j] + row[j + 1:] for row in M[1:]]
+            tot += (-1) ** j * a * exact_det(minor)
+    return tot
+
+
+def resels(ck):
+    """fwhm.Resels on every kind of affine coordinate map: wedge against the exact determinant (Coq model
+    qdet, vm_compute), conversions against their definition, mutual inverses, orientation independence, integrate"""
+    from nipy.algorithms.fwhm import Resels
+    from nipy.core.api import AffineTransform
+    rng = ck.rng("resels")
+    C4 = math.sqrt(4 * math.log(2))
+    mats = []
+    signs = list(itertools.product((1, -1), repeat=3))
+    for steps in [(1, 1, 1), (2, 3, 4), (0.5, 2.5, 1), (3, 3, 3), (0.001, 0.002, 0.004), (1000, 2000, 500)]:
+        for sg in signs:
+            mats.append(("diag", np.diag([a * b for a, b in zip(steps, sg)])))
+    for o in OBLIQUE:
+        for sg in signs[:: (1 if ck.thorough() else 3)] + [(-1, 1, 1)]:
+            mats.append(("oblique", np.array(o, float) * np.array(sg, float)[None, :]))
+    for perm in itertools.permutations(range(3)):
+        P = np.zeros((3, 3))
+        for i, j in enumerate(perm):
+            P[i, j] = [2.0, 3.0, 0.5][i]
+        mats.append(("permutation", P))
+    for _ in range(ck.n(30, 300)):
+        M = rng.integers(-8, 9, (3, 3)) / 4.0
+        if exact_det(M.tolist()) != 0:
+            mats.append(("random-dyadic", M))
+    fw = np.array([0.5, 2.0, 6.0, 25.0])
+    terms, meta = [], []
+    n = 0
+    for kind, A3 in mats:
+        t = rng.integers(-20, 21, 3).astype(float)
+        A4 = aff4(A3, t)
+        d = exact_det(A4.tolist())
+        absd = abs(float(d))
+        orient = "negative-determinant" if d < 0 else "positive-determinant"
+        for D in (3, 2):
+            n += 1
+            ck.count(("resels", kind, A3.tobytes(), D), bucket="resels/%s/%s" % (kind, orient))
+            rep = {"affine": A4.tolist(), "D": D, "det": float(d), "call": "Resels(AffineTransform.from_params('ijk','xyz',affine), D=D)"}
+            try:
+                R = Resels(AffineTransform.from_params('ijk', 'xyz', A4), D=D)
+                w = float(R.wedge)
+                r_of_f = np.asarray(R.fwhm2resel(fw.copy()), float)
+                want_r = absd * (C4 / fw) ** D
+                f_of_r = np.asarray(R.resel2fwhm(want_r.copy()), float)
+                back_f = np.asarray(R.resel2fwhm(R.fwhm2resel(fw.copy())), float)
+                back_r = np.asarray(R.fwhm2resel(R.resel2fwhm(want_r.copy())), float)
+            except Exception as e:  # noqa
+                ck.fail("resel/raises/%s" % orient, "Resels on a %s affine (%s) raised %s: %s" % (kind, orient, type(e).__name__, e), rep)
+                continue
+            if not (np.isfinite(w) and w > 0 and abs(w ** D - absd) <= 1e-11 * absd):
+                ck.fail("resel-wedge/%s" % orient, "Resels.wedge = %r, expected |det|^(1/D) = %r (det %r, D %d, %s affine)"
+                        % (w, absd ** (1.0 / D), float(d), D, kind), dict(rep, wedge=w))
+            if not np.allclose(r_of_f, want_r, rtol=1e-11, atol=0):
+                ck.fail("resel-fwhm/fwhm2resel-not-volume-over-width/%s" % orient,
+                        "fwhm2resel(%s) = %s, expected voxel volume * (sqrt(4 ln 2)/fwhm)^D = %s (%s affine, det %r)"
+                        % (fw.tolist(), r_of_f.tolist(), want_r.tolist(), kind, float(d)), rep)
+            if not np.allclose(f_of_r, fw, rtol=1e-11, atol=0):
+                ck.fail("resel-fwhm/resel2fwhm-wrong/%s" % orient, "resel2fwhm(%s) = %s, expected %s" % (want_r.tolist(), f_of_r.tolist(), fw.tolist()), rep)
+            if not (np.allclose(back_f, fw, rtol=1e-11, atol=0) and np.allclose(back_r, want_r, rtol=1e-11, atol=0)):
+                sig = SIG_RESEL
+                if d < 0:       # does the same map with positive determinant (first voxel axis flipped) round-trip?
+                    try:
+                        Rp = Resels(AffineTransform.from_params('ijk', 'xyz', aff4(A3 * np.array([-1.0, 1, 1])[None, :], t)), D=D)
+                        if np.allclose(np.asarray(Rp.resel2fwhm(Rp.fwhm2resel(fw.copy())), float), fw, rtol=1e-11, atol=0):
+                            sig = "resel-fwhm/flipped-affine-not-inverse"
+                    except Exception:  # noqa
+                        pass
+                ck.fail(sig, "resel2fwhm(fwhm2resel(f)) = %s for f = %s; fwhm2resel(resel2fwhm(r)) = %s for r = %s (%s affine, det %r, D %d)"
+                        % (back_f.tolist(), fw.tolist(), back_r.tolist(), want_r.tolist(), kind, float(d), D), rep)
+            # orientation independence: the same map with its first voxel axis flipped
+            try:
+                Rf = Resels(AffineTransform.from_params('ijk', 'xyz', aff4(A3 * np.array([-1.0, 1, 1])[None, :], t)), D=D)
+                if not (np.isclose(float(Rf.wedge), w, rtol=1e-12, atol=0) and np.allclose(np.asarray(Rf.fwhm2resel(fw.copy()), float), r_of_f, rtol=1e-12, atol=0)):
+                    ck.fail("resel/depends-on-orientation", "flipping the first voxel axis changes wedge %r -> %r / fwhm2resel %s -> %s"
+                            % (w, float(Rf.wedge), r_of_f.tolist(), np.asarray(Rf.fwhm2resel(fw.copy())).tolist()), rep)
+            except Exception as e:  # noqa
+                ck.fail("resel/raises/flipped", "Resels on the flipped map raised %s: %s" % (type(e).__name__, e), rep)
+            # integrate: constant and varying resel fields, with and without mask
+            shp = (3, 4, 2)
+            f0 = 6.0
+            r0 = absd * (C4 / f0) ** D
+            field = np.full(shp, r0)
+            var = r0 * (1 + rng.integers(0, 4, shp) / 4.0)
+            mask = (rng.random(shp) < 0.6).astype(float)
+            mask.reshape(-1)[0] = 1
+            for what, arr, mk_ in (("constant field", field, None), ("constant field, mask", field, mask), ("varying field, mask", var, mask), ("varying field", var, None)):
+                try:
+                    tot, fav, nv = Resels(AffineTransform.from_params('ijk', 'xyz', A4), resels=arr.copy(), D=D).integrate(mask=None if mk_ is None else mk_.copy())
+                except Exception as e:  # noqa
+                    ck.fail("resel-integrate/raises", "integrate (%s) raised %s: %s" % (what, type(e).__name__, e), rep)
+                    continue
+                m = np.ones(shp) if mk_ is None else mk_
+                wt, wn = float((arr * m).sum()), float(m.sum())
+                wf = C4 * absd ** (1.0 / D) * (wt / wn) ** (-1.0 / D)
+                if not (np.isclose(float(tot), wt, rtol=1e-12) and float(nv) == wn and np.isclose(float(fav), wf, rtol=1e-11)):
+                    ck.fail("resel-integrate/%s" % orient, "integrate (%s): (total, fwhm, nvoxel) = (%r, %r, %r), expected (%r, %r, %r)"
+                            % (what, float(tot), float(fav), float(nv), wt, wf, wn), dict(rep, resels=arr.tolist(), mask=None if mk_ is None else mk_.tolist()))
+            # model term (exact island: every entry a small dyadic rational)
+            if np.isfinite(w) and float(np.abs(A4).max()) < 1e6:
+                terms.append("wedge_ok %s %d%%positive %s (Qmake 1 100000000000)" % (cqmat(A4), D, cq(w)))
+                meta.append((kind, A4, D, w, float(d)))
+    res = None
+    if ck.build is not None:
+        from ..kit import CoqEvalError
+        try:
+            res = ck.coq_bools(HDR, terms, shard=200, name="resels")
+        except CoqEvalError as e:
+            if ck.build.ok:
+                raise
+            ck.note("resels: model not evaluable (build broken): %s" % str(e)[-200:])
+    if res is not None:
+        ck.cov["traces_validated_against_impl"] += len(res)
+        for ok, (kind, A4, D, w, d) in zip(res, meta):
+            if not ok:
+                ck.fail("model-vs-impl/resel-wedge", "Resels.wedge = %r but the model's exact determinant is %r (|det|^(1/%d) = %r), %s affine"
+                        % (w, d, D, abs(d) ** (1.0 / D), kind), {"affine": A4.tolist(), "D": D, "wedge": w, "det": d})
+                break
+    ck.section("resels", objects=n, affines=len(mats), model_terms=len(terms))
+
+
 def oracles(ck):
     """linearity, shift equivariance, constants, scale/location, anisotropy on larger grids"""
     rng = ck.rng("oracles")
@@ -679,7 +894,7 @@ def run(ck):
     import time
     tm = {"coq_build+overlay": round(time.time() - ck.t0, 1)}
     try:
-        for fn in (conversion_purity, per_axis_width, impulses, oracles, geometry_and_values):      # smallest inputs first
+        for fn in (conversion_purity, resels, per_axis_width, impulses, oracles, geometry_and_values):      # smallest inputs first
             t0 = time.time()
             fn(ck)
             tm[fn.__name__] = round(time.time() - t0, 1)
